@@ -108,6 +108,7 @@ type lexer struct {
 	n         int  // number of emitted tokens
 	hash      bool // whether a comment has been scanned
 	bquote    bool // whether the current token is a backquote
+	dquote    int  // > 0 inside double-quotes or the body of an expanding here-document
 }
 
 func newLexer(env *interp.ExecEnv, name string, r io.RuneScanner) *lexer {
@@ -786,6 +787,11 @@ func (l *lexer) scanHeredocs() bool {
 			}
 		}
 		unquote(h.Word)
+		if !quoted {
+			// the body is read like the inside of double-quotes
+			l.dquote++
+			defer func() { l.dquote-- }()
+		}
 		// token → string
 		delim := l.print(word)
 	Heredoc:
@@ -1237,6 +1243,8 @@ func (l *lexer) scanQuote(r rune) bool {
 	case '"':
 		// double-quotes
 		var err error
+		l.dquote++
+		defer func() { l.dquote-- }()
 		// save current word
 		word := l.word
 		l.word = nil
@@ -1504,6 +1512,29 @@ Op:
 				goto Error
 			}
 
+			if l.dquote > 0 && !strings.ContainsAny(pe.Op, "%#") {
+				// the word is double-quoted text as well: a single-quote
+				// is an ordinary character, and so is a backslash unless
+				// it escapes something
+				switch r {
+				case '\'':
+					l.b.WriteRune(r)
+					continue
+				case '\\':
+					if r, err = l.read(); err != nil {
+						goto Error
+					}
+					switch r {
+					case '\n', '"', '$', '\\', '`', '}':
+						l.unread()
+						r = '\\'
+					default:
+						l.b.WriteByte('\\')
+						l.b.WriteRune(r)
+						continue
+					}
+				}
+			}
 			switch r {
 			case '\\', '\'', '"':
 				// quoting
